@@ -1369,7 +1369,14 @@ func (ex *Exec) loadedTree(v *Val) *Val {
 	if v.Sh.IsLeaf() {
 		return ex.loaded(v)
 	}
-	return v
+	if ex.bound > 0 || len(v.Kids) == 0 || len(v.Kids) > 24 {
+		return v
+	}
+	out := &Val{Sh: v.Sh, T: v.T, Loc: v.Loc, Fn: v.Fn}
+	for _, k := range v.Kids {
+		out.Kids = append(out.Kids, ex.loadedTree(k))
+	}
+	return out
 }
 
 func elemType(t types.Type) types.Type {
